@@ -292,6 +292,25 @@ def malformed_check(acc):
         except (SystemExit, Exception):
             continue
         acc.violation(f"malformed-toml:{line}", f"config file line {line!r} accepted: {r!r}", {"kind": "malformed"})
+    # native (non-string) TOML values of options that have a value grammar: either rejected, or they mean what the same text means on
+    # the command line (a unit-less timeout is milliseconds; `default-array-lengths = 3` is the one-element list)
+    for opt, vals in (("solver-timeout-assertion", (500, 0, 2.5, 1500)), ("solver-timeout-branching", (0, 7)), ("panic-error-codes", (17,)), ("default-array-lengths", (3,)),
+                      ("default-bytes-lengths", (65,)), ("loop", (7,)), ("width", (0,)), ("invariant-depth", (3,))):
+        for v in vals:
+            acc.count("malformed_cases")
+            field = opt.replace("-", "_")
+            buf = io.StringIO()
+            try:
+                with contextlib.redirect_stderr(buf), contextlib.redirect_stdout(buf):
+                    want = getattr(arg_parser().parse_args([f"--{opt}", str(v)]), field)
+            except (SystemExit, Exception):
+                want = None
+            try:
+                got = toml_parser().parse_str(f"[global]\n{opt} = {v}\n").get(field)
+            except (SystemExit, Exception):
+                continue  # rejected
+            if want is None or got != want or type(got) is not type(want):
+                acc.violation(f"toml-native:{opt}:{v}", f"config file line `{opt} = {v}` (a native TOML value) gives {got!r}; the command line `--{opt} {v}` gives {want!r}", {"kind": "malformed"})
     acc.state("malformed")
 
 
@@ -340,6 +359,17 @@ PLACEMENTS = ["A:contract", "A:setUp()", "A:check_1()", "B:check_1()", "B:contra
 ANN_VALUE = {"A:contract": 11, "A:setUp()": 12, "A:check_1()": 13, "B:check_1()": 14, "B:contract": 15}
 
 
+# the placements of a contract-level annotation that halmos documents (build.parse_natspec): one line, continuation lines, a tag that
+# starts in the middle of a line, several tags, other tags around it
+NATSPEC_LAYOUTS = [
+    "@custom:halmos --loop {v}",
+    "@custom:halmos --width 7\n                --loop {v}",
+    "some text @custom:halmos\n --loop {v}\n@notice trailing text --loop 99",
+    "@custom:halmos --width 7\n@custom:halmos --loop {v}",
+    "@title T\n@custom:halmos\n--width 7\n--loop {v}\n@dev --loop 98",
+]
+
+
 def scoping_contracts(placements):
     cs = []
     for cname in ("A", "B"):
@@ -351,7 +381,7 @@ def scoping_contracts(placements):
             if c != cname:
                 continue
             if where == "contract":
-                natspec = f"@custom:halmos --loop {ANN_VALUE[p]}"
+                natspec = NATSPEC_LAYOUTS[(len(placements) + ANN_VALUE[p]) % len(NATSPEC_LAYOUTS)].format(v=ANN_VALUE[p])
             else:
                 devdoc[where] = f"--loop {ANN_VALUE[p]}"
         cs.append(e2e.Contract(cname, funcs, natspec=natspec, devdoc=devdoc, filename=f"{cname}.t.sol"))
